@@ -71,6 +71,12 @@ func exhaustiveCert(g *gen) {
 			subs = append(subs, plainSub(1000+i))
 		}
 		batch("c02-exh", plainRoot(), subs)
+		// negative serials pass the schema; they must be configuration errors, never negative INTEGERs (F24)
+		for _, sn := range []int64{-1, -128, -129, -9223372036854775808} {
+			s := plainSub(int(-(sn % 1000)))
+			s.Serial = sn
+			batch(fmt.Sprintf("c02-negative-serial-%d", sn), plainRoot(), []Cfg{s})
+		}
 		// cross-family hierarchies: inner and outer identifiers under a signer of the other family
 		for _, rk := range []string{"RSA-1024", "P-256", "brainpoolP256r1"} {
 			r := plainRoot()
@@ -137,6 +143,12 @@ func exhaustiveCert(g *gen) {
 			}
 		}
 		batch("c04-carry", plainRoot(), subs)
+		// duration components beyond what X.509 dates can reach must be configuration errors, not wrapped-around dates (F25)
+		for i, du := range []string{"99999999999999999999y", "9223372036854775807d", "10000y", "119989m", "3659635d", "9999y", "1y9223372036854775807m"} {
+			s := plainSub(i)
+			s.Validity = Validity{From: "2024-02-29", Duration: du}
+			batch(fmt.Sprintf("c04-duration-range-%d", i), plainRoot(), []Cfg{s})
+		}
 	case "c05":
 		keys := allKeys
 		if !thorough() {
